@@ -13,7 +13,7 @@ from harness.drivers import to_wide
 from harness.pool import Pool
 
 OPS = ["-", "~", "*", "+", "<<", ">>", "&", "|"]
-DIRECTIVE_CTXS = ["dl", "sym", "assign", "macro", "if"]
+DIRECTIVE_CTXS = ["dl", "sym", "assign", "macro", "macro2", "if"]
 ENV = {"x": 5, "_u": 5, "Xy_1": 5}
 IDNAMES = ["x", "_u", "Xy_1"]
 
@@ -88,7 +88,8 @@ def group_spans_all(tokens: list) -> bool:
 
 def random_tree(rnd: random.Random, depth: int) -> list:
     """token list of a random expression; parentheses inserted at random and where a tree needs them"""
-    mags = [0, 1, 2, 3, 7, 0xFF, 0x100, 0xFFFF, 0x10000, 0x7FFFFF, 0xFFFFFF, 1 << 24, (1 << 32) - 1, 12345, 0x8000]
+    # (0x10b1, 0x7e0b01, 0xb0b: hexadecimal digits that spell another base's prefix)
+    mags = [0, 1, 2, 3, 7, 0xFF, 0x100, 0xFFFF, 0x10000, 0x7FFFFF, 0xFFFFFF, 1 << 24, (1 << 32) - 1, 12345, 0x8000, 0x10b1, 0x7e0b01, 0xb0b]
     if depth == 0 or rnd.random() < 0.25:
         if rnd.random() < 0.2:
             return ["x"]
